@@ -11,6 +11,7 @@ ALL = ["C%02d" % i for i in range(1, 37)]
 ENGINES = [
     {"name": "E1-finite-family", "path": "vmc/crates/vmc/src/checks/", "kind_free_text": "exhaustive enumeration of a finite, size-bounded generated family through the real crates (one file per property)"},
     {"name": "E2-lockstep-product", "path": "vmc/crates/vmc/src/checks/c01.rs", "kind_free_text": "lock-step explicit-state BFS over the product of N machines (real simulator engines, reference SV interpreter, netlist evaluator) over all input letters with path re-execution; all short sequences without dedup"},
+    {"name": "E6-differential", "path": "vmc/crates/vmc/src/checks/c17.rs, c18.rs, c36.rs", "kind_free_text": "exhaustive enumeration of a finite input space through k implementations / a reference model with comparison of observables"},
     {"name": "E3-history-bfs", "path": "vmc/crates/vmc/src/checks/c29.rs, c04.rs", "kind_free_text": "explicit-state BFS over operation histories on the real implementation (library or CLI), state dedup by canonical on-disk snapshot, reference model / fresh-cache twin as oracle"},
     {"name": "E4-crash-damage", "path": "vmc/crates/vmc/src/checks/c05.rs", "kind_free_text": "every mutating system call of the real binary (strace) x SIGKILL before it, every byte/truncation/deletion of every .build file; recovery compared with a clean build"},
 ]
@@ -40,6 +41,16 @@ add("C13", "exploration",
     "exhaustive enumeration of a finite design x comment-slot x layout-configuration family through the real emitter; every decoded source-map entry checked against the raw texts",
     "90 testcases plus a generated family (6 base designs x every comment slot x 9 comment kinds incl. multi-byte and multi-line) x 16 layout configurations go through the real Parser/Analyzer/Emitter/SourceMap; the map is decoded twice (sourcemap crate and an own VLQ reader) and for every entry the output text at (line, column) must start with the entry's name and the source position must be the start of a token or comment found by an own scanner of the raw source; entries are ordered; every output line showing a source identifier has an entry.",
     "Trusted base: the own source scanner and VLQ decoder. Columns are character columns. Cases where the emitter itself panics are counted as skipped (that is C11's subject).")
+add("C17", "exploration",
+    "exhaustive enumeration of operators x widths x signedness x all 4-state operand values (small widths) and all pairs of a corner alphabet (wide), on the real evaluator, against an IEEE 1800 reference (R1)",
+    "Every operator of the analyzer's constant evaluator (10 unary, 25 binary incl. `as`) on the real Op::eval_value_unary/binary and Value::* for operand widths {1..3}^2 (quick) / {1..4}^2 (thorough) x signedness^2 x every call context an outer context of 0..8 bits produces x ALL 4-state operand values; all pairs of a 20-27 value corner alphabet (incl. x/z patterns, word-boundary one-hots) at widths {31,32,33,63,64,65,127,128,129,255,256}; Value::expand/trunc/select/concat across the 64-bit representation switch; U64-vs-BigUint agreement on every value both can hold; and whole one- and two-operator expressions through the real parser + analyzer (context propagation) compared with R1 on the expression tree.",
+    "Trusted base: R1 (vmc/crates/refmodels/src/bits.rs + expr.rs), written from IEEE 1800-2017 section 11 with no code shared with veryl; where the LRM admits two readings (== with x, unary plus with x) both are accepted. The quick tier is budget-capped (blocks interleaved so a cap thins all parts evenly; reported).",
+    engine="E6-differential")
+add("C18", "exploration",
+    "exhaustive enumeration of generated per-width operator modules x engines x (all values | all corner pairs), run on the real simulator engines, against R1 and the compile-time evaluator",
+    "One generated module per (wa, wb, wy, sa, sb) with 67 outputs (10 unary, 24 binary operators, 33 two-operator compositions where context width/sign propagates) at widths from {1,2,3,4,8,31,32,33,63,64,65,127,128,129,200,256,300}; inputs: all 2-state values when wa+wb <= 8, all 4-state values when <= 4/6, else all pairs of the corner alphabet plus a shift-amount alphabet; run on interpreter and Cranelift JIT x 2-/4-state (quick, 170 modules) or all 10 Config::all() engines incl. the cc backend (thorough, 966 modules). Every Simulator::get is compared with R1 under the IEEE context rule, and, where it agrees, with the compile-time evaluator (differences confirmed through the real analyzer).",
+    "Trusted base: R1. 2-state engines: results whose IEEE value contains x are counted, not compared. Known findings are listed per (operator, engine, width class, signedness, difference class); the long list reflects nine analyzer root causes plus JIT/cc wide-width and 4-state defects (DESIGN.md section 0.2).",
+    engine="E6-differential")
 add("C28", "exploration",
     "exhaustive enumeration of all Doc trees up to N nodes x render options on the real renderer, invariant oracle",
     "All veryl_pretty Doc trees with <= 5 (quick) / 6 (thorough) nodes over a 23-leaf alphabet and a deeper reduced alphabet up to 7 / 8 nodes, x up to 36 render options, are rendered by the real render_with_anchors; checked: every marker once and in order, group modes consistent, IfBreak text iff its group broke, every RenderedAnchor is at the (line, column) where its text really is, no trailing blanks when stripping, groups that fit are not broken.",
@@ -49,6 +60,12 @@ add("C29", "model_checking",
     "All histories of Store operations (open/try_open/put/set_diagnostics/keep/invalidate/set_dependents/set_tests/save/drop, plus an on-disk schema change) up to depth 6 (quick) / 8 (thorough) over 2 keys, 2 paths, 2 hashes, 3 blobs are explored on the real veryl_cache::Store with state deduplication; every transition is checked against a versioned-map reference, and after every save every blob referenced by the on-disk manifest must exist. All histories up to depth 3/4 are also run with no state merging.",
     "Trusted base: the 60-line reference map in c29.rs and the canonical state key (disk snapshot + handle view). One handle at a time.",
     engine="E3-history-bfs")
+
+add("C36", "exploration",
+    "exhaustive enumeration of 4-state values x widths through the real Value<->svLogicVecVal conversions against the Annex H table; all input sequences to depth 3/4 on 20 designs x engines with every VCD sample compared with the simulator's own value",
+    "Vec<SvLogicVecVal>::from(&Value) and Value::from(&[SvLogicVecVal]) for all 4-state values x signed flag at widths 1..7 (quick) / 1..9 (thorough), corner alphabets and walking 0/1/x/z at every bit position for widths {31..129} straddling the 32-bit word boundaries, word vectors of 1..5 words: Annex H encoding bit by bit, padding bits, word count, round trip; the cosim_set/cosim_get bodies around a real simulator at 12 widths x 4 engines. Dumps: 20 designs (counters, 65/129/200-bit registers, arrays, struct/enum, hierarchy, 4-state, tri-state) on every engine, all input sequences over a 5-/6-letter alphabet to depth 3/4, driven exactly like testbench.rs, dumped with the real WaveDumper, parsed with the vcd crate: header, times and every variable at every time equal Simulator::get_var right after that dump.",
+    "Trusted base: the Annex H table in c36.rs; the vcd crate's parser. FST files are not read back (no reader available offline); Value::to_fst_bits itself is checked. The veryl-cosim cdylib is not loaded; its conversion bodies are replayed.",
+    engine="E6-differential")
 
 NOT_APPLICABLE_REASON = "check not integrated yet in this round (being built, see DESIGN.md section 0.2); not claimed until a sound check exists"
 
